@@ -82,6 +82,35 @@ class Check:
         self.extra = {}
         self.samples = []
         self._seen_inst = {}
+        self.errors = []
+
+    def guard(self, fn, *args, **kwargs):
+        """Run one rule; an analysis error of this rule does not hide the
+        violations the other (independent) rules establish."""
+        try:
+            return fn(*args, **kwargs)
+        except AnalysisError as e:
+            self.errors.append(str(e))
+        except RecursionError as e:
+            self.errors.append(f'internal error RecursionError: {e}')
+        except Exception as e:  # noqa
+            import traceback
+            traceback.print_exc()
+            self.errors.append(f'internal error {type(e).__name__}: {e}')
+        return None
+
+    def adopt(self, rule, text, sub):
+        """Re-state the instances and findings of a sub-check (rules shared
+        with another property) under one rule id of this property."""
+        self.rule(rule, text)
+        for r in sub.instances:
+            self.instance(rule, r['where'], r['what'],
+                          r['verdict'] == 'holds', r['argument'],
+                          nontrivial=True, loc=r['loc'])
+        for f_ in sub.findings:
+            self.violation(rule, f_.where, f_.construct,
+                           f'[{f_.rule}] {f_.msg}', f_.loc)
+        self.errors.extend(sub.errors)
 
     # --------------------------------------------------------------- rules
     def rule(self, rid, text):
@@ -201,6 +230,8 @@ class Check:
             'known_findings_matched': [f.to_json() for f in matched],
             'violations': [f.to_json() for f in unlisted],
         }
+        if self.errors:
+            coverage['analysis_errors'] = self.errors
         coverage.update(self.extra)
         if thorough_extra:
             coverage.update(thorough_extra)
@@ -245,8 +276,14 @@ class Check:
             for f in unlisted:
                 print(f'  VIOLATED {f.rule} at {f.loc} in {f.where}: {f.msg}')
                 print(f'           construct: {f.construct}')
+            for e in self.errors:
+                print(f'  NOTE another rule could not be evaluated: {e}')
             print(f'VIOLATION property={self.prop} replay={replay_path}')
             return 1
+        if self.errors:
+            for e in self.errors:
+                print(f'ANALYSIS-ERROR property={self.prop}: {e}')
+            return 2
         if os.path.exists(replay_path):
             os.remove(replay_path)
         if thorough_extra and thorough_extra.get('_selftest_error'):
